@@ -29,6 +29,9 @@ class Monitor:
     def finish(self, run):
         return self.violations
 
+    def on_livelock(self, run, exc):
+        """ A call into an instance never returned (vsim.sim.Livelock): nothing to say by default. """
+
 
 # ---------------------------------------------------------------------------------------------------
 # C16
@@ -363,6 +366,10 @@ class MasterMonitor(Monitor):
 
 class ProgressMonitor(Monitor):
     """ C08: bounded return to OPERATION after disturbances stop; nobody parked. """
+
+    def on_livelock(self, run, exc):
+        # the extreme way of being parked: the state machine loops inside one call and time stops for the instance
+        self.violate('C08/livelock', f'a call into an instance never returns: {exc}', case=run.describe())
 
     def finish(self, run):
         w = run.world
